@@ -17,6 +17,7 @@ let register k f = Hashtbl.replace handlers k f
 
 let () = Drv_mode.install register get getn geti getb
 let () = Drv_wire.install register get getn geti getb
+let () = Drv_client.install register get getn geti getb
 
 let () =
   (try while true do
